@@ -1,5 +1,5 @@
 (* AdaptersProofs.v — proofs for C20 (models and statements' vocabulary are in Adapters.v). *)
-From Coq Require Import NArith ZArith Ascii String List Bool Lia Permutation.
+From Coq Require Import NArith ZArith Ascii String List Bool Lia Permutation DecimalString.
 From Coq Require Import Init.Byte.
 From PyC Require Import Base Cbor CborProofs Dict Value Json Adapters.
 Import ListNotations.
@@ -133,12 +133,14 @@ Qed.
 (* depth of a document (fuel of the two recursive readers) *)
 Definition jdepth_list (l : list json) : nat := fold_right (fun x acc => Nat.max (jdepth x) acc) O l.
 Lemma jdepth_arr l : jdepth (JArr l) = S (jdepth_list l).
-Proof. cbn [jdepth]. f_equal. induction l as [|x r IH]; cbn; [reflexivity|]. now rewrite IH. Qed.
+Proof. reflexivity. Qed.
 Lemma jdepth_obj kvs : jdepth (JObj kvs) = S (jdepth_list (map snd kvs)).
-Proof. cbn [jdepth]. f_equal. induction kvs as [|x r IH]; cbn; [reflexivity|]. now rewrite IH. Qed.
+Proof. cbn [jdepth]. f_equal. induction kvs as [|x r IH]; [reflexivity|]. cbn. now rewrite IH. Qed.
 Lemma jdepth_list_in x l : In x l -> (jdepth x <= jdepth_list l)%nat.
 Proof.
-  induction l as [|y r IH]; cbn; [tauto|]. intros [->|Hin]; [lia|]. specialize (IH Hin). lia.
+  induction l as [|y r IH]; [intros []|].
+  change (jdepth_list (y :: r)) with (Nat.max (jdepth y) (jdepth_list r)).
+  intros [->|Hin]; [lia|]. specialize (IH Hin). lia.
 Qed.
 
 Lemma mapM_id {A B} (f : A -> result B) (g : B -> A) l :
@@ -151,9 +153,6 @@ Proof. induction 1 as [|x r Hx Hr IH]; cbn; [reflexivity|]. now rewrite Hx, IH. 
 (* ================================================================ hexadecimal, decimal, splitting *)
 Lemma hexs_inj a b : hexs a = hexs b -> a = b.
 Proof. intros E. pose proof (unhex_hexs a) as Ha. rewrite E, unhex_hexs in Ha. now inversion Ha. Qed.
-
-Section WithHash.
-  Variable H : bytes -> bytes.
 
   Lemma from_hex_hexs b : from_hex (hexs b) = Ok b.
   Proof. unfold from_hex. now rewrite unhex_hexs. Qed.
@@ -424,6 +423,9 @@ Section WithHash.
   Lemma cbor_loads_enc b : (lenN b < two64)%N -> cbor_loads_bytes (enc (CB b)) = Ok b.
   Proof. intros W. unfold cbor_loads_bytes. now rewrite decode_enc_bytes. Qed.
 
+Section WithHash.
+  Variable H : bytes -> bytes.
+
   Lemma try_fix_ok h v body served :
     h = hexs (plutus_hash H v body) ->
     served = body \/ (served = enc (CB body) /\ (lenN body < two64)%N /\
@@ -446,6 +448,8 @@ Section WithHash.
     intros _ W Hw. unfold served_body. destruct (u_script_wrapped u); [right | left; reflexivity].
     repeat split; [assumption | now apply Hw].
   Qed.
+
+End WithHash.
 
   Definition found (tbl docs : list (string * json)) : Prop :=
     Forall (fun kd => jget (fst kd) tbl = Some (snd kd)) docs.
@@ -484,4 +488,759 @@ Section WithHash.
     String.prefix "plutusv" (lower ty) = true /\
     match last_char ty with Some c => int_of_str (String c EmptyString) | None => Err "IndexError" end = Ok (Z.of_N v).
   Proof. intros [-> | [-> | ->]]; split; reflexivity. Qed.
-End WithHash.
+
+(* ================================================================ NativeScript.from_dict reads back the rendered script *)
+
+Lemma ns_list_rt l f :
+  Forall (fun ns => wf_nscript ns -> forall f, (jdepth (ns_json ns) < f)%nat -> ns_of_json f (ns_json ns) = Ok ns) l ->
+  Forall wf_nscript l -> (jdepth_list (map ns_json l) < f)%nat ->
+  mapM (ns_of_json f) (map ns_json l) = Ok l.
+Proof.
+  intros IH W Hf. apply mapM_id. rewrite Forall_forall in *. intros x Hx.
+  apply IH; [assumption | now apply W |].
+  eapply Nat.le_lt_trans; [apply jdepth_list_in, in_map, Hx | exact Hf].
+Qed.
+
+Lemma ns_rt : forall ns, wf_nscript ns -> forall f, (jdepth (ns_json ns) < f)%nat -> ns_of_json f (ns_json ns) = Ok ns.
+Proof.
+  induction ns as [kh|l IH|l IH|n l IH|s|s] using nscript_ind'; intros W f Hf; (destruct f as [|f]; [lia|]).
+  - cbn in W. cbn -[hash_of_hex]. rewrite hash_of_hex_hexs by assumption. reflexivity.
+  - cbn -[mapM]. rewrite ns_list_rt; [reflexivity | assumption | now apply wf_ns_all |].
+    cbn [ns_json] in Hf. rewrite jdepth_obj in Hf. cbn [map snd jdepth_list fold_right] in Hf.
+    rewrite jdepth_arr in Hf. lia.
+  - cbn -[mapM]. rewrite ns_list_rt; [reflexivity | assumption | now apply wf_ns_all |].
+    cbn [ns_json] in Hf. rewrite jdepth_obj in Hf. cbn [map snd jdepth_list fold_right] in Hf.
+    rewrite jdepth_arr in Hf. lia.
+  - cbn -[mapM]. rewrite ns_list_rt; [reflexivity | assumption | now apply wf_ns_all |].
+    cbn [ns_json] in Hf. rewrite jdepth_obj in Hf. cbn [map snd jdepth_list fold_right] in Hf.
+    rewrite jdepth_arr in Hf. lia.
+  - reflexivity.
+  - reflexivity.
+Qed.
+
+Lemma native_from_dict_rt ns : wf_nscript ns -> native_from_dict (ns_json ns) = Ok ns.
+Proof. intros W. unfold native_from_dict. apply ns_rt; [assumption | lia]. Qed.
+
+(* ================================================================ RawPlutusData.from_dict reads back the rendered datum *)
+
+Definition conv_kv (kv : pdata * pdata) : pyd * pyd := (pyd_of_pdata (fst kv), pyd_of_pdata (snd kv)).
+Definition pair_json (kv : pdata * pdata) : json := JObj [("k", pd_json (fst kv)); ("v", pd_json (snd kv))].
+Definition map_step (f : nat) (acc : list (pyd * pyd)) (pair : json) : result (list (pyd * pyd)) :=
+  do kj <- jfield "k" pair; do k <- pyd_of_json f kj;
+  do vj <- jfield "v" pair; do v <- pyd_of_json f vj;
+  if hashable k then Ok (ydset acc k v) else Err "TypeError".
+
+Lemma ykey_conv a b : is_pkey a = true -> is_pkey b = true ->
+  ykey_eqb (pyd_of_pdata a) (pyd_of_pdata b) = pkey_eqb a b.
+Proof.
+  destruct a as [| | |x|x], b as [| | |y|y]; cbn [is_pkey]; try discriminate; intros _ _; cbn [pyd_of_pdata pkey_eqb].
+  - reflexivity.
+  - destruct (32 <? length y)%nat; reflexivity.
+  - destruct (32 <? length x)%nat; reflexivity.
+  - destruct (32 <? length x)%nat, (32 <? length y)%nat; reflexivity.
+Qed.
+Lemma hashable_conv a : is_pkey a = true -> hashable (pyd_of_pdata a) = true.
+Proof.
+  destruct a as [| | |x|x]; cbn [is_pkey]; try discriminate; intros _; cbn [pyd_of_pdata]; [reflexivity|].
+  destruct (32 <? length x)%nat; reflexivity.
+Qed.
+Lemma ydset_fresh acc k v : forallb (fun kv => negb (ykey_eqb (fst kv) k)) acc = true -> ydset acc k v = acc ++ [(k, v)].
+Proof.
+  induction acc as [|[k' v'] r IH]; cbn; [reflexivity|]. intros Hf. apply andb_true_iff in Hf as [H1 H2].
+  apply negb_true_iff in H1. rewrite H1. now rewrite IH.
+Qed.
+Lemma pkeys_distinct_mid l1 k l2 : pkeys_distinct (l1 ++ k :: l2) = true -> forall x, In x l1 -> pkey_eqb x k = false.
+Proof.
+  induction l1 as [|y r IH]; cbn; [intros _ x []|]. intros Hd x [->|Hin].
+  - apply andb_true_iff in Hd as [H1 _]. apply negb_true_iff in H1.
+    rewrite existsb_app in H1. apply orb_false_iff in H1 as [_ H1]. cbn in H1. now apply orb_false_iff in H1 as [H1 _].
+  - apply andb_true_iff in Hd as [_ H2]. now apply IH.
+Qed.
+
+Lemma map_fold f : forall kvs done,
+  Forall (fun kv => pyd_of_json f (pd_json (fst kv)) = Ok (pyd_of_pdata (fst kv)) /\
+                    pyd_of_json f (pd_json (snd kv)) = Ok (pyd_of_pdata (snd kv))) kvs ->
+  forallb is_pkey (map fst (done ++ kvs)) = true -> pkeys_distinct (map fst (done ++ kvs)) = true ->
+  foldM (map_step f) (map pair_json kvs) (map conv_kv done) = Ok (map conv_kv (done ++ kvs)).
+Proof.
+  induction kvs as [|kv r IH]; intros done Hrt Hk Hd; cbn [map foldM].
+  - now rewrite app_nil_r.
+  - inversion Hrt as [|? ? [Hkk Hvv] Hr]; subst.
+    unfold map_step at 1.
+    change (jfield "k" (pair_json kv)) with (Ok (A:=json) (pd_json (fst kv))).
+    change (jfield "v" (pair_json kv)) with (Ok (A:=json) (pd_json (snd kv))).
+    cbn [bind]. rewrite Hkk. cbn [bind]. rewrite Hvv. cbn [bind].
+    assert (Hpk : is_pkey (fst kv) = true).
+    { rewrite map_app, forallb_app in Hk. apply andb_true_iff in Hk as [_ Hk]. cbn in Hk. now apply andb_true_iff in Hk as [Hk _]. }
+    rewrite hashable_conv by assumption.
+    rewrite ydset_fresh.
+    + cbn [bind]. replace (map conv_kv done ++ [(pyd_of_pdata (fst kv), pyd_of_pdata (snd kv))]) with (map conv_kv (done ++ [kv]))
+        by (rewrite map_app; reflexivity).
+      replace (done ++ kv :: r) with ((done ++ [kv]) ++ r) by (rewrite <- app_assoc; reflexivity).
+      apply IH; [assumption | |]; rewrite <- app_assoc; assumption.
+    + rewrite forallb_forall. intros [a b] Hin. apply in_map_iff in Hin as (d & E & Hin). inversion E; subst.
+      cbn [fst]. rewrite ykey_conv.
+      * apply negb_true_iff. rewrite map_app in Hd. cbn [map] in Hd. eapply pkeys_distinct_mid; [exact Hd | now apply in_map].
+      * rewrite map_app, forallb_app in Hk. apply andb_true_iff in Hk as [Hk _]. rewrite forallb_forall in Hk. apply Hk. now apply in_map.
+      * assumption.
+Qed.
+
+Lemma pd_list_rt l f :
+  Forall (fun pd => wf_pdata pd -> forall f, (jdepth (pd_json pd) < f)%nat -> pyd_of_json f (pd_json pd) = Ok (pyd_of_pdata pd)) l ->
+  Forall wf_pdata l -> (jdepth_list (map pd_json l) < f)%nat ->
+  mapM (pyd_of_json f) (map pd_json l) = Ok (map pyd_of_pdata l).
+Proof.
+  intros IH W Hf. apply mapM_map_ok. rewrite Forall_forall in *. intros x Hx.
+  apply IH; [assumption | now apply W |].
+  eapply Nat.le_lt_trans; [apply jdepth_list_in, in_map, Hx | exact Hf].
+Qed.
+
+Lemma pd_rt : forall pd, wf_pdata pd -> forall f, (jdepth (pd_json pd) < f)%nat ->
+  pyd_of_json f (pd_json pd) = Ok (pyd_of_pdata pd).
+Proof.
+  induction pd as [c fs IH|kvs IH|l IH|z|b] using pdata_ind'; intros W f Hf; (destruct f as [|f]; [lia|]).
+  - cbn -[mapM get_tag]. destruct W as [_ W]. rewrite pd_list_rt; [| assumption | now apply wf_pd_all |].
+    + cbn [bind]. destruct (get_tag c); reflexivity.
+    + cbn [pd_json] in Hf. rewrite jdepth_obj in Hf. cbn [map snd jdepth_list fold_right] in Hf.
+      rewrite jdepth_arr in Hf. lia.
+  - destruct W as (Hk & Hd & W). apply wf_pd_allp in W.
+    cbn -[foldM]. change (fun kv : pdata * pdata => JObj [("k", pd_json (fst kv)); ("v", pd_json (snd kv))]) with pair_json.
+    change (fun (acc : list (pyd * pyd)) (pair : json) => _) with (map_step f).
+    change (@nil (pyd * pyd)) with (map conv_kv []).
+    rewrite map_fold; [reflexivity | | assumption | assumption].
+    cbn [pd_json] in Hf. rewrite jdepth_obj in Hf. cbn [map snd jdepth_list fold_right] in Hf.
+    rewrite jdepth_arr in Hf.
+    rewrite Forall_forall in *. intros kv Hin. destruct (IH kv Hin) as [IHk IHv]. destruct (W kv Hin) as [Wk Wv].
+    assert (Hp : (jdepth (pair_json kv) <= jdepth_list (map pair_json kvs))%nat) by (apply jdepth_list_in, in_map, Hin).
+    unfold pair_json in Hp at 1. rewrite jdepth_obj in Hp. cbn [map snd jdepth_list fold_right] in Hp.
+    change (fun kv : pdata * pdata => JObj [("k", pd_json (fst kv)); ("v", pd_json (snd kv))]) with pair_json in Hf.
+    split; [apply IHk | apply IHv]; try assumption; lia.
+  - cbn -[mapM]. rewrite pd_list_rt; [reflexivity | assumption | now apply wf_pd_all |].
+    cbn [pd_json] in Hf. rewrite jdepth_obj in Hf. cbn [map snd jdepth_list fold_right] in Hf.
+    rewrite jdepth_arr in Hf. lia.
+  - reflexivity.
+  - cbn -[from_hex Nat.ltb String.length]. rewrite from_hex_hexs. cbn [bind]. rewrite hexs_length.
+    replace (64 <? 2 * length b)%nat with (32 <? length b)%nat; [destruct (32 <? length b)%nat; reflexivity|].
+    destruct (32 <? length b)%nat eqn:E1, (64 <? 2 * length b)%nat eqn:E2; try reflexivity;
+      rewrite ?Nat.ltb_lt, ?Nat.ltb_ge in *; lia.
+Qed.
+
+Lemma plutus_from_dict_rt pd : wf_pdata pd -> plutus_from_dict (pd_json pd) = Ok (pyd_of_pdata pd).
+Proof. intros W. unfold plutus_from_dict. apply pd_rt; [assumption | lia]. Qed.
+
+(* the structure built denotes the value reported *)
+Lemma untag_get_tag c t : get_tag c = Some t -> untag t = Some c.
+Proof.
+  unfold get_tag, untag. destruct ((0 <=? c)%Z && (c <? 7)%Z) eqn:E1.
+  - intros E. assert (Ht : t = (121 + c)%Z) by congruence. clear E. subst t. apply andb_true_iff in E1 as [A B]. apply Z.leb_le in A. apply Z.ltb_lt in B.
+    replace ((121 <=? 121 + c)%Z && (121 + c <? 128)%Z) with true by (symmetry; apply andb_true_iff; split; [apply Z.leb_le | apply Z.ltb_lt]; lia).
+    f_equal. lia.
+  - destruct ((7 <=? c)%Z && (c <? 128)%Z) eqn:E2; [|discriminate].
+    intros E. assert (Ht : t = (1280 + (c - 7))%Z) by congruence. clear E. subst t. apply andb_true_iff in E2 as [A B]. apply Z.leb_le in A. apply Z.ltb_lt in B.
+    replace ((121 <=? 1280 + (c - 7))%Z && (1280 + (c - 7) <? 128)%Z) with false by (symmetry; apply andb_false_iff; right; apply Z.ltb_ge; lia).
+    replace ((1280 <=? 1280 + (c - 7))%Z && (1280 + (c - 7) <? 1401)%Z) with true by (symmetry; apply andb_true_iff; split; [apply Z.leb_le | apply Z.ltb_lt]; lia).
+    f_equal. lia.
+Qed.
+
+Lemma pdata_of_pyd_rt : forall pd, pdata_of_pyd (pyd_of_pdata pd) = Some pd.
+Proof.
+  induction pd as [c fs IH|kvs IH|l IH|z|b] using pdata_ind'.
+  - assert (Hall : (fix all (l : list pyd) : option (list pdata) :=
+                      match l with
+                      | [] => Some []
+                      | x :: r => match pdata_of_pyd x, all r with Some a, Some b => Some (a :: b) | _, _ => None end
+                      end) (map pyd_of_pdata fs) = Some fs).
+    { induction IH as [|x r Hx Hr IHr]; cbn [map]; [reflexivity|]. now rewrite Hx, IHr. }
+    cbn [pyd_of_pdata]. destruct (get_tag c) as [t|] eqn:E; cbn [pdata_of_pyd].
+    + rewrite (untag_get_tag c t E). cbv zeta. rewrite Hall. reflexivity.
+    + cbv zeta. rewrite Hall. reflexivity.
+  - cbn [pyd_of_pdata pdata_of_pyd].
+    match goal with |- match ?X with _ => _ end = _ => assert (Hall : X = Some kvs) end.
+    { induction IH as [|[k v] r [Hk Hv] Hr IHr]; cbn [map]; [reflexivity|]. cbn [fst snd] in *. now rewrite Hk, Hv, IHr. }
+    now rewrite Hall.
+  - assert (Hall : (fix all (l : list pyd) : option (list pdata) :=
+                      match l with
+                      | [] => Some []
+                      | x :: r => match pdata_of_pyd x, all r with Some a, Some b => Some (a :: b) | _, _ => None end
+                      end) (map pyd_of_pdata l) = Some l).
+    { induction IH as [|x r Hx Hr IHr]; cbn [map]; [reflexivity|]. now rewrite Hx, IHr. }
+    cbn [pyd_of_pdata pdata_of_pyd]. cbv zeta. rewrite Hall. reflexivity.
+  - reflexivity.
+  - cbn [pyd_of_pdata]. destruct (32 <? length b)%nat; reflexivity.
+Qed.
+
+(* ================================================================ per-entry theorems *)
+
+
+#[local] Arguments hexs : simpl never.
+#[local] Arguments dec_of_N : simpl never.
+#[local] Arguments dec_of_Z : simpl never.
+#[local] Arguments hash_of_hex : simpl never.
+#[local] Arguments name_of_hex : simpl never.
+#[local] Arguments from_hex : simpl never.
+#[local] Arguments dotted_parse : simpl never.
+#[local] Arguments dotted_assets : simpl never.
+#[local] Arguments nested_assets : simpl never.
+#[local] Arguments ver_digit : simpl never.
+#[local] Arguments enc : simpl never.
+#[local] Arguments ns_json : simpl never.
+#[local] Arguments ns_json_v5 : simpl never.
+#[local] Arguments ns_json_v6 : simpl never.
+#[local] Arguments ns_cbor : simpl never.
+#[local] Arguments pd_json : simpl never.
+#[local] Arguments native_from_dict : simpl never.
+#[local] Arguments plutus_from_dict : simpl never.
+#[local] Arguments cbor_loads_bytes : simpl never.
+#[local] Arguments try_fix : simpl never.
+#[local] Arguments py_int : simpl never.
+#[local] Arguments foldM : simpl never.
+#[local] Arguments mapM : simpl never.
+#[local] Arguments served_body : simpl never.
+#[local] Arguments zeros32 : simpl never.
+#[local] Arguments Z.of_N : simpl never.
+
+Lemma dotted_step_ok m e : sized_entry e ->
+  dotted_step m (dotted (fst (fst e)) (snd (fst e)), jN (snd e)) = Ok (ins m e).
+Proof.
+  intros [Hp Hn]. unfold dotted_step. cbn [fst snd]. rewrite kupo_split by assumption. reflexivity.
+Qed.
+
+Lemma dotted_parse_ok flat : Forall sized_entry flat -> dotted_parse (dotted_assets flat) = Ok (assets_of_flat flat).
+Proof.
+  intros Hs. unfold dotted_parse, dotted_assets. destruct flat as [|e r]; [reflexivity|].
+  cbn [truthy map]. change (?a :: map ?f r) with (map f (e :: r)).
+  apply (foldM_pure dotted_step ins _ sized_entry); [|assumption].
+  intros s b Hb. now apply dotted_step_ok.
+Qed.
+
+Lemma hash_of_hex_str k b : length b = k -> hash_of_hex k (JStr (hexs b)) = Ok b.
+Proof. apply hash_of_hex_hexs. Qed.
+Lemma hexs_nonempty b : b <> [] -> String.eqb (hexs b) "" = false.
+Proof. destruct b as [|x r]; [congruence|]. reflexivity. Qed.
+Lemma nonnil32 (b : bytes) : length b = 32%nat -> b <> [].
+Proof. destruct b; [discriminate | discriminate]. Qed.
+Lemma nonnil28 (b : bytes) : length b = 28%nat -> b <> [].
+Proof. destruct b; [discriminate | discriminate]. Qed.
+
+(* closing step: the assembled record is faithful *)
+Lemma faithful_intro x addr u txid ix lov ma dh d s :
+  wf_assets (u_assets u) -> Permutation (flatten (u_assets u)) (u_flat u) ->
+  txid = u_txid u -> ix = Z.of_N (u_index u) -> lov = Z.of_N (u_lovelace u) ->
+  (ma = assets_of_flat (u_flat u) \/ ma = assets_of_flat (flatten (u_assets u))) ->
+  (dh, d) = datum_report x (u_datum u) -> s = u_script u ->
+  faithful x addr u (mkA txid ix addr lov ma dh d s).
+Proof.
+  intros Hwa Hperm -> -> -> Hma Hd ->. unfold faithful. cbn [a_txid a_index a_addr a_lovelace a_assets a_datum_hash a_datum a_script].
+  assert (Hm : (forall p n, content ma p n = Z.of_N (ucontent (u_assets u) p n)) /\
+               (forall p n, present ma p n <-> upresent (u_assets u) p n) /\ minv ma).
+  { destruct Hma as [->| ->]; [now apply assets_faithful | apply assets_faithful; [assumption | apply Permutation_refl]]. }
+  destruct Hm as (Hc & Hp & Hi).
+  exact (conj eq_refl (conj eq_refl (conj eq_refl (conj eq_refl (conj Hc (conj Hp (conj Hi (conj Hd eq_refl)))))))).
+Qed.
+
+Ltac vd := change (ver_digit 1) with "1" in *; change (ver_digit 2) with "2" in *; change (ver_digit 3) with "3" in *;
+  change (Z.of_N 1) with 1%Z in *; change (Z.of_N 2) with 2%Z in *; change (Z.of_N 3) with 3%Z in *.
+
+Section V5.
+  Variable H : bytes -> bytes.
+  Theorem v5_entry_ok addr u : wf_utxo H OgmiosV5 u ->
+    exists o, parse_v5_entry (v5_entry addr u) = Ok o /\ faithful OgmiosV5 addr u o.
+  Proof.
+    intros (Htx & Hwa & Hperm & Hd & Hsup & Hsc).
+    pose proof (sized_flat _ _ Hwa Hperm) as Hsz.
+    unfold parse_v5_entry, v5_entry. cbn.
+    rewrite hash_of_hex_hexs by assumption. cbn [bind].
+    rewrite dotted_parse_ok by assumption.
+    destruct (u_script u) as [[v body|ns]|] eqn:Es; [| discriminate Hsup |].
+    - assert (Hv : (v = 1 \/ v = 2)%N).
+      { cbn in Hsup. apply orb_true_iff in Hsup as [Hv|Hv]; apply N.eqb_eq in Hv; auto. }
+      destruct (u_datum u) as [|h known|h raw pd] eqn:Ed; destruct Hv as [-> | ->]; cbn; vd; cbn;
+        rewrite ?from_hex_hexs; cbn;
+        try (destruct Hd as [Hh Hd]); try (destruct Hd as (Hraw & Hneq & _)); try rewrite (hexs_nonempty h) by (now apply nonnil32);
+        try rewrite (hexs_nonempty raw) by assumption; cbn;
+        rewrite ?hash_of_hex_str, ?hash_of_hex_hexs by assumption; rewrite ?from_hex_hexs; cbn;
+        (eexists; split; [reflexivity|]);
+        (apply faithful_intro; try assumption; try reflexivity; try (now left); rewrite ?Es, ?Ed; reflexivity).
+    - destruct (u_datum u) as [|h known|h raw pd] eqn:Ed; cbn;
+        try (destruct Hd as [Hh Hd]); try (destruct Hd as (Hraw & Hneq & _)); try rewrite (hexs_nonempty h) by (now apply nonnil32);
+        try rewrite (hexs_nonempty raw) by assumption; cbn;
+        rewrite ?hash_of_hex_str, ?hash_of_hex_hexs by assumption; rewrite ?from_hex_hexs; cbn;
+        (eexists; split; [reflexivity|]);
+        (apply faithful_intro; try assumption; try reflexivity; try (now left); rewrite ?Es, ?Ed; reflexivity).
+  Qed.
+  Theorem v5_ok addr us : Forall (wf_utxo H OgmiosV5) us ->
+    exists outs, parse_v5 (render_v5 addr us) = Ok outs /\ Forall2 (faithful OgmiosV5 addr) us outs.
+  Proof.
+    intros Hw. unfold parse_v5, render_v5. cbn [sv_main]. cbn [jfield jget String.eqb Ascii.eqb Bool.eqb andb bind].
+    apply mapM_Forall2. eapply Forall_impl; [|exact Hw]. intros u Hu. now apply v5_entry_ok.
+  Qed.
+End V5.
+
+(* ---------- nested {"policy": {"name": q}} maps (Ogmios v6, cardano-cli) ---------- *)
+Definition name_entry (nq : bytes * N) : string * json := (hexs (fst nq), jN (snd nq)).
+Definition group_entries (pl : bytes * list (bytes * N)) : flat_assets := map (fun nq => (fst pl, fst nq, snd nq)) (snd pl).
+Definition wf_group (pl : bytes * list (bytes * N)) : Prop :=
+  length (fst pl) = 28%nat /\ snd pl <> [] /\ Forall (fun nq => (length (fst nq) <= 32)%nat) (snd pl).
+
+Lemma wf_groups a : wf_assets a -> Forall wf_group a.
+Proof.
+  intros [_ Hf]. eapply Forall_impl; [|exact Hf]. intros pl (A & B & _ & D). now repeat split.
+Qed.
+
+Lemma foldM_cons {A S} (f : S -> A -> result S) x r s : foldM f (x :: r) s = bind (f s x) (foldM f r).
+Proof. reflexivity. Qed.
+
+Lemma names_fold step p : (forall m kv, step p m kv = (do n <- name_of_hex (JStr (fst kv)); do q <- as_int (snd kv); Ok (mset m p n q))) ->
+  forall names m, Forall (fun nq => (length (fst nq) <= 32)%nat) names ->
+  foldM (step p) (map name_entry names) m = Ok (fold_left ins (map (fun nq => (p, fst nq, snd nq)) names) m).
+Proof.
+  intros Hstep. induction names as [|[n q] r IH]; intros m Hn; [reflexivity|].
+  inversion Hn; subst. cbn [map]. rewrite foldM_cons.
+  rewrite Hstep. unfold name_entry at 1. cbn [fst snd].
+  change (JStr (hexs n)) with (jhex n). rewrite name_of_hex_hexs by assumption. cbn [bind as_int jN].
+  cbn [fold_left]. now apply IH.
+Qed.
+
+Lemma flatten_groups a m : fold_left ins (flatten a) m = fold_left (fun m pl => fold_left ins (group_entries pl) m) a m.
+Proof. unfold flatten. apply fold_left_flat_map. Qed.
+
+Lemma hexs28_neq p s : length p = 28%nat -> (String.length s < 56)%nat -> String.eqb (hexs p) s = false.
+Proof. intros Hp Hs. apply string_eqb_neq_length. rewrite hexs_length. unfold bytes in *. lia. Qed.
+
+Lemma v6_policy_ok m pl : wf_group pl ->
+  v6_policy_step m (hexs (fst pl), JObj (map name_entry (snd pl))) = Ok (fold_left ins (group_entries pl) m).
+Proof.
+  intros (Hp & Hne & Hn). unfold v6_policy_step. cbn [fst snd].
+  rewrite (hexs28_neq (fst pl) "ada") by (assumption || (cbn; lia)).
+  destruct (snd pl) as [|nq r] eqn:E; [congruence|]. cbn [map]. 
+  change (name_entry nq :: map name_entry r) with (map name_entry (nq :: r)).
+  rewrite hash_of_hex_str by assumption. cbn [bind]. unfold group_entries. rewrite E.
+  apply (names_fold v6_names_step); [reflexivity | assumption].
+Qed.
+
+Lemma v6_value_ok lov a : wf_assets a ->
+  (if only_ada (("ada", JObj [("lovelace", jN lov)]) :: nested_assets a) then Ok []
+   else foldM v6_policy_step (("ada", JObj [("lovelace", jN lov)]) :: nested_assets a) []) = Ok (assets_of_flat (flatten a)).
+Proof.
+  intros Hw. pose proof (wf_groups a Hw) as Hg. destruct a as [|pl r]; [reflexivity|].
+  inversion Hg as [|? ? Hpl Hr]; subst. destruct Hpl as (Hp & _).
+  unfold nested_assets. cbn [map only_ada forallb fst]. change ("ada" =? "ada")%string with true. cbn [andb].
+  rewrite (hexs28_neq (fst pl) "ada") by (assumption || (cbn; lia)). cbn [andb].
+  rewrite foldM_cons. unfold v6_policy_step at 1. cbn [fst]. change ("ada" =? "ada")%string with true. cbn [bind].
+  change ((hexs (fst pl), JObj (map (fun nq => (hexs (fst nq), jN (snd nq))) (snd pl))) :: map (fun pl0 => (hexs (fst pl0), JObj (map (fun nq0 => (hexs (fst nq0), jN (snd nq0))) (snd pl0)))) r)
+    with (map (fun pl0 => (hexs (fst pl0), JObj (map name_entry (snd pl0)))) (pl :: r)).
+  unfold assets_of_flat. rewrite flatten_groups.
+  apply (foldM_pure v6_policy_step _ _ wf_group); [|assumption].
+  intros s b Hb. now apply v6_policy_ok.
+Qed.
+
+#[local] Arguments only_ada : simpl never.
+#[local] Arguments v6_policy_step : simpl never.
+
+Section V6.
+  Variable H : bytes -> bytes.
+  Theorem v6_entry_ok addr u : wf_utxo H OgmiosV6 u ->
+    exists o, parse_v6_entry (v6_entry addr u) = Ok o /\ faithful OgmiosV6 addr u o.
+  Proof.
+    intros (Htx & Hwa & Hperm & Hd & Hsup & Hsc).
+    unfold parse_v6_entry, v6_entry.
+    destruct (u_script u) as [[v body|ns]|] eqn:Es; [| discriminate Hsup |].
+    - pose proof (supported_plutus _ _ _ Hsup) as Hv.
+      destruct (u_datum u) as [|h known|h raw pd] eqn:Ed; destruct Hv as [-> | [-> | ->]]; cbn; vd; cbn;
+        rewrite ?hash_of_hex_hexs by assumption; cbn; rewrite ?from_hex_hexs; cbn;
+        try (destruct Hd as [Hh Hd]); try (destruct Hd as (Hraw & Hneq & _)); try rewrite (hexs_nonempty h) by (now apply nonnil32);
+        try rewrite (hexs_nonempty raw) by assumption; cbn;
+        rewrite ?hash_of_hex_str, ?hash_of_hex_hexs by assumption; rewrite ?from_hex_hexs; cbn;
+        rewrite v6_value_ok by assumption; cbn;
+        (eexists; split; [reflexivity|]);
+        (apply faithful_intro; try assumption; try reflexivity; try (now right); rewrite ?Es, ?Ed; reflexivity).
+    - destruct (u_datum u) as [|h known|h raw pd] eqn:Ed; cbn;
+        rewrite ?hash_of_hex_hexs by assumption; cbn;
+        try (destruct Hd as [Hh Hd]); try (destruct Hd as (Hraw & Hneq & _)); try rewrite (hexs_nonempty h) by (now apply nonnil32);
+        try rewrite (hexs_nonempty raw) by assumption; cbn;
+        rewrite ?hash_of_hex_str, ?hash_of_hex_hexs by assumption; rewrite ?from_hex_hexs; cbn;
+        rewrite v6_value_ok by assumption; cbn;
+        (eexists; split; [reflexivity|]);
+        (apply faithful_intro; try assumption; try reflexivity; try (now right); rewrite ?Es, ?Ed; reflexivity).
+  Qed.
+End V6.
+
+Section V6list.
+  Variable H : bytes -> bytes.
+  Theorem v6_ok addr us : Forall (wf_utxo H OgmiosV6) us ->
+    exists outs, parse_v6 (render_v6 addr us) = Ok outs /\ Forall2 (faithful OgmiosV6 addr) us outs.
+  Proof.
+    intros Hw. unfold parse_v6, render_v6. cbn [sv_main]. cbn -[mapM map].
+    destruct us as [|u r]; [exists []; split; [reflexivity | constructor]|].
+    cbn [map]. change (v6_entry addr u :: map (v6_entry addr) r) with (map (v6_entry addr) (u :: r)).
+    apply mapM_Forall2. eapply Forall_impl; [|exact Hw]. intros u' Hu. now apply (v6_entry_ok H).
+  Qed.
+End V6list.
+
+(* ---------- cardano-cli ---------- *)
+Lemma uint_digits d c : (N_of_ascii c <? 48)%N = true -> has_char c (NilEmpty.string_of_uint d) = false.
+Proof.
+  intros Hc. induction d; cbn [NilEmpty.string_of_uint has_char]; [reflexivity | ..]; rewrite IHd, orb_false_r;
+    (destruct (Ascii.eqb _ c) eqn:E; [apply Ascii.eqb_eq in E; subst c; discriminate Hc | reflexivity]).
+Qed.
+Lemma dec_no_hash n : has_char "#" (dec_of_N n) = false.
+Proof.
+  unfold dec_of_N, NilZero.string_of_uint. destruct (N.to_uint n) eqn:E; try (rewrite <- E; apply uint_digits; reflexivity).
+  reflexivity.
+Qed.
+
+Lemma txref_split u : split_on "#" (txref u) = [hexs (u_txid u); dec_of_N (u_index u)].
+Proof.
+  unfold txref. rewrite split_on_app by (now apply hexs_no_char). now rewrite split_on_none by apply dec_no_hash.
+Qed.
+
+Lemma cli_policy_ok c m pl : wf_group pl ->
+  cli_value_step (c, m) (hexs (fst pl), JObj (map name_entry (snd pl))) = Ok (c, fold_left ins (group_entries pl) m).
+Proof.
+  intros (Hp & Hne & Hn). unfold cli_value_step. cbn [fst snd].
+  rewrite (hexs28_neq (fst pl) "lovelace") by (assumption || (cbn; lia)).
+  rewrite hash_of_hex_str by assumption. cbn [bind]. unfold group_entries.
+  rewrite (names_fold cli_names_step); [reflexivity | reflexivity | assumption].
+Qed.
+
+Lemma cli_value_ok lov a : wf_assets a ->
+  foldM cli_value_step (nested_assets a ++ [("lovelace", jN lov)]) (0%Z, []) = Ok (Z.of_N lov, assets_of_flat (flatten a)).
+Proof.
+  intros Hw. pose proof (wf_groups a Hw) as Hg. rewrite foldM_app.
+  assert (G : forall l c m, Forall wf_group l ->
+            foldM cli_value_step (nested_assets l) (c, m) = Ok (c, fold_left (fun m pl => fold_left ins (group_entries pl) m) l m)).
+  { induction l as [|pl r IH]; intros c m Hl; [reflexivity|]. inversion Hl; subst.
+    unfold nested_assets. cbn [map]. rewrite foldM_cons.
+    change (map (fun nq : bytes * N => (hexs (fst nq), jN (snd nq))) (snd pl)) with (map name_entry (snd pl)).
+    rewrite cli_policy_ok by assumption. cbn [bind fold_left]. now apply IH. }
+  rewrite G by assumption. cbn [bind]. rewrite foldM_cons. unfold cli_value_step. cbn [fst snd].
+  change ("lovelace" =? "lovelace")%string with true. cbn. unfold assets_of_flat. now rewrite flatten_groups.
+Qed.
+
+#[local] Arguments cli_value_step : simpl never.
+#[local] Arguments txref : simpl never.
+#[local] Arguments split_on : simpl never.
+
+Section CLI.
+  Variable H : bytes -> bytes.
+  Theorem cli_entry_ok addr u : wf_utxo H Cli u ->
+    exists o, parse_cli_entry (cli_entry addr u) = Ok o /\ faithful Cli addr u o.
+  Proof.
+    intros (Htx & Hwa & Hperm & Hd & Hsup & Hsc).
+    unfold parse_cli_entry, cli_entry. cbn [fst snd]. rewrite txref_split. cbn [bind fst snd].
+    rewrite hash_of_hex_str by assumption. cbn [bind]. rewrite int_of_str_dec. cbn [bind].
+    destruct (u_script u) as [[v body|ns]|] eqn:Es; [| discriminate Hsup |].
+    - assert (Hv : (v = 1 \/ v = 2)%N).
+      { cbn in Hsup. apply orb_true_iff in Hsup as [Hv|Hv]; apply N.eqb_eq in Hv; auto. }
+      destruct Hsc as [Hlen _].
+      destruct (u_datum u) as [|h known|h raw pd] eqn:Ed; destruct Hv as [-> | ->]; cbn; vd; cbn;
+        rewrite cli_value_ok by assumption; cbn;
+        try (destruct Hd as [Hh Hd]); try (destruct Hd as (Hraw & Hneq & Hpd)); try rewrite (hexs_nonempty h) by (now apply nonnil32); cbn;
+        rewrite ?hash_of_hex_str, ?hash_of_hex_hexs by assumption; cbn;
+        rewrite ?plutus_from_dict_rt by assumption; cbn;
+        rewrite from_hex_hexs; cbn; rewrite cbor_loads_enc by assumption; cbn;
+        (eexists; split; [reflexivity|]);
+        (apply faithful_intro; try assumption; try reflexivity; try (now right); rewrite ?Es, ?Ed; reflexivity).
+    - destruct (u_datum u) as [|h known|h raw pd] eqn:Ed; cbn;
+        rewrite cli_value_ok by assumption; cbn;
+        try (destruct Hd as [Hh Hd]); try (destruct Hd as (Hraw & Hneq & Hpd)); try rewrite (hexs_nonempty h) by (now apply nonnil32); cbn;
+        rewrite ?hash_of_hex_str, ?hash_of_hex_hexs by assumption; cbn;
+        rewrite ?plutus_from_dict_rt by assumption; cbn;
+        (eexists; split; [reflexivity|]);
+        (apply faithful_intro; try assumption; try reflexivity; try (now right); rewrite ?Es, ?Ed; reflexivity).
+  Qed.
+
+  Theorem cli_ok addr us : Forall (wf_utxo H Cli) us ->
+    exists outs, parse_cli (render_cli addr us) = Ok outs /\ Forall2 (faithful Cli addr) us outs.
+  Proof.
+    intros Hw. unfold parse_cli, render_cli. cbn [sv_main].
+    apply mapM_Forall2. eapply Forall_impl; [|exact Hw]. intros u Hu. now apply cli_entry_ok.
+  Qed.
+End CLI.
+
+#[local] Arguments http_get : simpl never.
+#[local] Arguments api_get : simpl never.
+#[local] Arguments kupo_get_datum : simpl never.
+
+Section KUPO.
+  Variable H : bytes -> bytes.
+
+  Lemma found1 tbl k d : found tbl [(k, d)] -> jget k tbl = Some d.
+  Proof. intros Hf. now inversion Hf. Qed.
+
+  Lemma hexs_neq a b : a <> b -> String.eqb (hexs a) (hexs b) = false.
+  Proof.
+    intros Hn. destruct (String.eqb (hexs a) (hexs b)) eqn:E; [|reflexivity].
+    apply String.eqb_eq, hexs_inj in E. contradiction.
+  Qed.
+
+  Lemma kupo_datum_ok sv u : wf_datum Kupo (u_datum u) -> found (sv_datum sv) (kupo_datum_docs u) ->
+    match u_datum u with
+    | DNone => True
+    | DHash h known => kupo_get_datum sv (hexs h) = Ok (snd (datum_report Kupo (u_datum u)))
+    | DInline h raw pd => kupo_get_datum sv (hexs h) = Ok (snd (datum_report Kupo (u_datum u)))
+    end.
+  Proof.
+    intros Hd Fd. unfold kupo_datum_docs in Fd. destruct (u_datum u) as [|h [pre|]|h raw pd]; [exact I | | |];
+      apply found1 in Fd; unfold kupo_get_datum, http_get; rewrite Fd; cbn.
+    - destruct Hd as [_ Hn]. rewrite hexs_neq by congruence. cbn. now rewrite from_hex_hexs.
+    - reflexivity.
+    - destruct Hd as (_ & _ & Hn & _). rewrite hexs_neq by assumption. cbn. now rewrite from_hex_hexs.
+  Qed.
+
+  Theorem kupo_entry_ok sv addr u : wf_utxo H Kupo u ->
+    found (sv_script sv) (kupo_script_docs u) -> found (sv_datum sv) (kupo_datum_docs u) ->
+    exists o, parse_kupo_entry H sv addr (kupo_entry addr u) = Ok (Some o) /\ faithful Kupo addr u o.
+  Proof.
+    intros (Htx & Hwa & Hperm & Hd & Hsup & Hsc) Fs Fd.
+    pose proof (sized_flat _ _ Hwa Hperm) as Hsz.
+    pose proof (kupo_datum_ok sv u Hd Fd) as Hkd.
+    unfold parse_kupo_entry, kupo_entry.
+    destruct (u_script u) as [[v body|ns]|] eqn:Es; [| discriminate Hsup |].
+    - pose proof (supported_plutus _ _ _ Hsup) as Hv.
+      destruct Hsc as (Hlen & Hshl & Hsh & Hwr).
+      unfold kupo_script_docs in Fs. rewrite Es in Fs. apply found1 in Fs.
+      pose proof (served_body_cases H u v body Es Hlen Hwr) as Hserved.
+      destruct (u_datum u) as [|h known|h raw pd] eqn:Ed;
+        destruct Hv as [-> | [-> | ->]]; cbn; rewrite hash_of_hex_hexs by assumption; cbn;
+          rewrite (hexs_nonempty (u_script_hash u)) by (now apply nonnil28); cbn;
+          unfold http_get; rewrite Fs; cbn; vd; cbn; rewrite from_hex_hexs; cbn; vd; cbn;
+          rewrite (try_fix_ok H _ _ body) by (assumption || (now rewrite Hsh)); cbn;
+          try (destruct Hd as [Hh Hd]); try rewrite (hexs_nonempty h) by (now apply nonnil32); cbn;
+          rewrite ?hash_of_hex_str, ?hash_of_hex_hexs by assumption; cbn; rewrite ?Hkd; cbn;
+          rewrite dotted_parse_ok by assumption; cbn;
+          (eexists; split; [reflexivity|]);
+          (apply faithful_intro; try assumption; try reflexivity; try (now left); rewrite ?Es, ?Ed; try reflexivity;
+           cbn [datum_report]; destruct known; reflexivity).
+    - destruct (u_datum u) as [|h known|h raw pd] eqn:Ed;
+          cbn; rewrite hash_of_hex_hexs by assumption; cbn;
+          try (destruct Hd as [Hh Hd]); try rewrite (hexs_nonempty h) by (now apply nonnil32); cbn;
+          rewrite ?hash_of_hex_str, ?hash_of_hex_hexs by assumption; cbn; rewrite ?Hkd; cbn;
+          rewrite dotted_parse_ok by assumption; cbn;
+          (eexists; split; [reflexivity|]);
+          (apply faithful_intro; try assumption; try reflexivity; try (now left); rewrite ?Es, ?Ed; try reflexivity;
+           cbn [datum_report]; destruct known; reflexivity).
+  Qed.
+End KUPO.
+
+#[local] Arguments bf_get_script : simpl never.
+#[local] Arguments bf_amount_step : simpl never.
+
+Section BF.
+  Variable H : bytes -> bytes.
+
+  Lemma bf_script_ok sv u : wf_script H Blockfrost u ->
+    found (sv_script sv) (bf_script_docs u) -> found (sv_script_cbor sv) (bf_cbor_docs u) ->
+    found (sv_script_json sv) (bf_json_docs u) ->
+    match u_script u with
+    | None => True
+    | Some s => bf_get_script H sv (hexs (u_script_hash u)) = Ok s
+    end.
+  Proof.
+    intros [Hsup Hsc] F1 F2 F3. unfold bf_script_docs in F1. unfold bf_cbor_docs in F2. unfold bf_json_docs in F3.
+    destruct (u_script u) as [[v body|ns]|] eqn:Es; [| | exact I].
+    - pose proof (supported_plutus _ _ _ Hsup) as Hv. destruct Hsc as (Hlen & Hshl & Hsh & Hwr).
+      apply found1 in F1, F2.
+      pose proof (served_body_cases H u v body Es Hlen Hwr) as Hserved.
+      destruct Hv as [-> | [-> | ->]]; vd;
+        unfold bf_get_script, api_get; rewrite F1; cbn; rewrite F2; cbn; rewrite from_hex_hexs; cbn;
+        (apply try_fix_ok; [now rewrite Hsh | assumption]).
+    - destruct Hsc as [Hns _]. apply found1 in F1, F3.
+      unfold bf_get_script, api_get. rewrite F1. cbn. rewrite F3. cbn.
+      rewrite native_from_dict_rt by assumption. reflexivity.
+  Qed.
+
+  Theorem bf_entry_ok sv addr u : wf_utxo H Blockfrost u ->
+    found (sv_script sv) (bf_script_docs u) -> found (sv_script_cbor sv) (bf_cbor_docs u) ->
+    found (sv_script_json sv) (bf_json_docs u) ->
+    exists o, parse_bf_entry H sv addr (bf_entry addr u) = Ok o /\ faithful Blockfrost addr u o.
+  Proof.
+    intros (Htx & Hwa & Hperm & Hd & Hsc) F1 F2 F3.
+    pose proof (sized_flat _ _ Hwa Hperm) as Hsz.
+    pose proof (bf_script_ok sv u Hsc F1 F2 F3) as Hgs.
+    pose proof (bf_amount_ok (u_lovelace u) (u_flat u) Hsz) as Ham. unfold bf_item in Ham.
+    unfold parse_bf_entry, bf_entry. cbn.
+    rewrite hash_of_hex_hexs by assumption. cbn. rewrite Ham. cbn.
+    assert (Hshn : forall s, u_script u = Some s -> String.eqb (hexs (u_script_hash u)) "" = false).
+    { intros s Es. apply hexs_nonempty, nonnil28. destruct Hsc as [_ Hsc]. rewrite Es in Hsc.
+      destruct s; [apply Hsc | apply Hsc]. }
+    destruct (u_script u) as [s|] eqn:Es; destruct (u_datum u) as [|h known|h raw pd] eqn:Ed; cbn;
+      try rewrite (Hshn s eq_refl); cbn; rewrite ?Hgs; cbn;
+      try (destruct Hd as [Hh Hd]); try rewrite (hexs_nonempty h) by (now apply nonnil32); cbn;
+      rewrite ?hash_of_hex_str, ?hash_of_hex_hexs by assumption; cbn; rewrite ?from_hex_hexs; cbn;
+      (eexists; split; [reflexivity|]);
+      (apply faithful_intro; try assumption; try reflexivity; try (now left); rewrite ?Es, ?Ed; reflexivity).
+  Qed.
+End BF.
+
+(* ================================================================ whole responses *)
+Lemma jget_in_nodup k d (tbl : list (string * json)) : NoDup (map fst tbl) -> In (k, d) tbl -> jget k tbl = Some d.
+Proof.
+  induction tbl as [|[k' d'] r IH]; intros Hnd Hin; [contradiction|].
+  inversion Hnd as [|? ? Hx Hr]; subst. cbn [jget]. destruct Hin as [E|Hin].
+  - inversion E; subst. now rewrite String.eqb_refl.
+  - destruct (String.eqb k' k) eqn:E; [|now apply IH].
+    apply String.eqb_eq in E. subst. exfalso. apply Hx. change k with (fst (k, d)). now apply in_map.
+Qed.
+
+(* every UTxO's auxiliary documents (script, datum endpoints) are the ones found under its hash *)
+Definition aux_ok (x : svc) (addr : string) (us : list utxo_model) : Prop :=
+  let sv := render x addr us in
+  match x with
+  | Blockfrost => Forall (fun u => found (sv_script sv) (bf_script_docs u) /\ found (sv_script_cbor sv) (bf_cbor_docs u) /\
+                                  found (sv_script_json sv) (bf_json_docs u)) us
+  | Kupo => Forall (fun u => found (sv_script sv) (kupo_script_docs u) /\ found (sv_datum sv) (kupo_datum_docs u)) us
+  | _ => True
+  end.
+
+Lemma found_flat_map (docs : utxo_model -> list (string * json)) us :
+  NoDup (map fst (flat_map docs us)) -> Forall (fun u => found (flat_map docs us) (docs u)) us.
+Proof.
+  intros Hnd. apply Forall_forall. intros u Hu. apply Forall_forall. intros [k d] Hkd.
+  apply jget_in_nodup; [assumption|]. apply in_flat_map. now exists u.
+Qed.
+
+(* sufficient: distinct hashes across the response (always true for a single UTxO) *)
+Lemma aux_ok_nodup x addr us :
+  match x with
+  | Blockfrost => NoDup (map fst (flat_map bf_script_docs us)) /\ NoDup (map fst (flat_map bf_cbor_docs us)) /\
+                  NoDup (map fst (flat_map bf_json_docs us))
+  | Kupo => NoDup (map fst (flat_map kupo_script_docs us)) /\ NoDup (map fst (flat_map kupo_datum_docs us))
+  | _ => True
+  end -> aux_ok x addr us.
+Proof.
+  unfold aux_ok. destruct x; try (intros _; exact I).
+  - intros (N1 & N2 & N3). cbn [render render_blockfrost sv_script sv_script_cbor sv_script_json].
+    pose proof (found_flat_map _ _ N1) as F1. pose proof (found_flat_map _ _ N2) as F2. pose proof (found_flat_map _ _ N3) as F3.
+    rewrite Forall_forall in *. intros u Hu. auto.
+  - intros (N1 & N2). cbn [render render_kupo sv_script sv_datum].
+    pose proof (found_flat_map _ _ N1) as F1. pose proof (found_flat_map _ _ N2) as F2.
+    rewrite Forall_forall in *. intros u Hu. auto.
+Qed.
+
+Lemma nodup_le1 {A} (l : list A) : (length l <= 1)%nat -> NoDup l.
+Proof. destruct l as [|a [|b r]]; cbn; intros Hl; [constructor | constructor; [intros []|constructor] | lia]. Qed.
+
+Lemma aux_ok_single x addr u : aux_ok x addr [u].
+Proof.
+  apply aux_ok_nodup. destruct x; try exact I; cbn [flat_map]; rewrite !app_nil_r.
+  - unfold bf_script_docs, bf_cbor_docs, bf_json_docs. destruct (u_script u) as [[v b|ns]|]; repeat split; apply nodup_le1; cbn; lia.
+  - unfold kupo_script_docs, kupo_datum_docs. destruct (u_script u) as [[v b|ns]|]; destruct (u_datum u) as [|h [pre|]|h raw pd];
+      split; apply nodup_le1; cbn; lia.
+Qed.
+
+Lemma somes_map_some {A} (l : list A) : somes (map Some l) = l.
+Proof. induction l as [|a r IH]; [reflexivity|]. unfold somes in *. cbn [map flat_map app]. now rewrite IH. Qed.
+
+Section ALL.
+  Variable H : bytes -> bytes.
+
+  Theorem bf_ok addr us : Forall (wf_utxo H Blockfrost) us -> aux_ok Blockfrost addr us ->
+    exists outs, parse_blockfrost H addr (render_blockfrost addr us) = Ok outs /\ Forall2 (faithful Blockfrost addr) us outs.
+  Proof.
+    intros Hw Ha. unfold aux_ok in Ha. cbv zeta in Ha. cbn [render] in Ha.
+    unfold parse_blockfrost. cbn [render_blockfrost sv_main].
+    apply mapM_Forall2. rewrite Forall_forall in *. intros u Hu. destruct (Ha u Hu) as (F1 & F2 & F3).
+    apply bf_entry_ok; auto.
+  Qed.
+
+  Theorem kupo_ok addr us : Forall (wf_utxo H Kupo) us -> aux_ok Kupo addr us ->
+    exists outs, parse_kupo H addr (render_kupo addr us) = Ok outs /\ Forall2 (faithful Kupo addr) us outs.
+  Proof.
+    intros Hw Ha. unfold aux_ok in Ha. cbv zeta in Ha. cbn [render] in Ha.
+    unfold parse_kupo. cbn [render_kupo sv_main].
+    destruct (mapM_Forall2 (parse_kupo_entry H (render_kupo addr us) addr) (kupo_entry addr)
+                (fun u b => exists o, b = Some o /\ faithful Kupo addr u o) us) as (bs & Hbs & Rbs).
+    { rewrite Forall_forall in *. intros u Hu. destruct (Ha u Hu) as (F1 & F2).
+      destruct (kupo_entry_ok H (render_kupo addr us) addr u (Hw u Hu) F1 F2) as (o & Ho & Fo).
+      exists (Some o). split; [assumption | now exists o]. }
+    unfold render_kupo in Hbs. cbn [sv_main] in *. unfold render_kupo. rewrite Hbs. cbn [bind].
+    assert (G : exists outs, bs = map Some outs /\ Forall2 (faithful Kupo addr) us outs).
+    { clear Hbs Hw Ha. induction Rbs as [|u b us' bs' Hub Hr IH].
+      - exists []. split; [reflexivity | constructor].
+      - destruct Hub as (o & Eb & Fo). destruct IH as (outs & Ebs & IH). subst b bs'.
+        exists (o :: outs). split; [reflexivity | now constructor]. }
+    destruct G as (outs & -> & Hf). exists outs. now rewrite somes_map_some.
+  Qed.
+
+  (* THE theorem: for every service, every response rendered from well-formed UTxO models is parsed into exactly one
+     faithful UTxO per model, in order *)
+  Theorem adapters_faithful x addr us : Forall (wf_utxo H x) us -> aux_ok x addr us ->
+    exists outs, parse H x addr (render x addr us) = Ok outs /\ Forall2 (faithful x addr) us outs.
+  Proof.
+    destruct x; intros Hw Ha; cbn [parse render].
+    - now apply bf_ok.
+    - now apply (v5_ok H).
+    - now apply (v6_ok H).
+    - now apply kupo_ok.
+    - now apply (cli_ok H).
+  Qed.
+
+  Corollary adapter_faithful_one x addr u : wf_utxo H x u ->
+    exists o, parse H x addr (render x addr [u]) = Ok [o] /\ faithful x addr u o.
+  Proof.
+    intros Hw. destruct (adapters_faithful x addr [u]) as (outs & Ho & Hf); [now constructor | apply aux_ok_single |].
+    inversion Hf as [|? o ? outs' Fo Hr]; subst. inversion Hr; subst. now exists o.
+  Qed.
+End ALL.
+
+
+(* ================================================================ the known finding: unsupported reference scripts *)
+Definition u_native : utxo_model :=
+  mkU (repeat xab 32) 0 1000000 [] [] DNone (Some (SNative (NSig (repeat xaa 28)))) (repeat xee 28) false.
+Definition u_plutus_v3 : utxo_model :=
+  mkU (repeat xab 32) 0 1000000 [] [] DNone (Some (SPlutus 3 [x4d; x01; x00])) (repeat xee 28) false.
+
+(* outside script_supported the adapters raise for the whole query (the UTxO is not reported at all), although
+   everything else about the UTxO is well formed *)
+Lemma script_unsupported_refuted :
+  let H := fun _ : bytes => repeat xee 28 in
+  (wf_assets (u_assets u_native) /\ length (u_txid u_native) = 32%nat /\ wf_datum Cli (u_datum u_native)) /\
+  script_supported OgmiosV5 (u_script u_native) = false /\
+  parse H OgmiosV5 "addr" (render OgmiosV5 "addr" [u_native]) = Err "ValueError" /\
+  parse H OgmiosV6 "addr" (render OgmiosV6 "addr" [u_native]) = Err "ValueError" /\
+  parse H Kupo "addr" (render Kupo "addr" [u_native]) = Err "ValueError" /\
+  parse H Cli "addr" (render Cli "addr" [u_native]) = Err "KeyError" /\
+  script_supported Cli (u_script u_plutus_v3) = false /\
+  parse H Cli "addr" (render Cli "addr" [u_plutus_v3]) = Err "KeyError".
+Proof.
+  cbv zeta. split; [|vm_compute; repeat split; reflexivity].
+  split; [split; [constructor | constructor] | split; [reflexivity | exact I]].
+Qed.
+
+(* ================================================================ non-vacuity *)
+Definition p1 : bytes := repeat x11 28.
+Definition p2 : bytes := repeat x22 28.
+Definition u_example : utxo_model :=
+  mkU (repeat xab 32) 1 42000000
+      [(p1, [([], 18446744073709551617%N); ([x6e], 12%N)]); (p2, [([], 5%N)])]
+      [(p2, [], 5%N); (p1, [x6e], 12%N); (p1, [], 18446744073709551617%N)]
+      (DInline (repeat xdd 32) [xd8; x79; x80] (PConstr 0 []))
+      (Some (SPlutus 2 [x4d; x01; x00])) (repeat xee 28) false.
+
+Example wf_example x : wf_utxo (fun _ => repeat xee 28) x u_example.
+Proof.
+  unfold wf_utxo, u_example. cbn [u_txid u_assets u_flat u_datum u_script].
+  split; [reflexivity|]. split; [|split; [|split]].
+  - split.
+    + cbn. constructor; [intros [E|[]]; discriminate E | constructor; [intros [] | constructor]].
+    + repeat constructor; cbn; try lia; try discriminate; try (intros [E|[]]; discriminate E); try (intros []).
+  - exact (Permutation_rev (flatten [(p1, [([], 18446744073709551617%N); ([x6e], 12%N)]); (p2, [([], 5%N)])])).
+  - cbn. repeat split; try discriminate; destruct x; try exact I. cbn. split; [lia | exact I].
+  - unfold wf_script. cbn [u_script u_script_hash u_script_wrapped]. split; [destruct x; reflexivity|].
+    split; [reflexivity|]. destruct x; try exact I; (split; [reflexivity | split; [reflexivity | discriminate]]).
+Qed.
+
+(* and the theorem's conclusion, computed, on that example *)
+Example example_v6 :
+  parse (fun _ => repeat xee 28) OgmiosV6 "addr_test1xyz" (render OgmiosV6 "addr_test1xyz" [u_example])
+  = Ok [mkA (repeat xab 32) 1 "addr_test1xyz" 42000000
+            [(p1, [([], 18446744073709551617%Z); ([x6e], 12%Z)]); (p2, [([], 5%Z)])]
+            None (Some (ARaw [xd8; x79; x80])) (Some (SPlutus 2 [x4d; x01; x00]))].
+Proof. vm_compute. reflexivity. Qed.
+Example example_blockfrost_order :
+  parse (fun _ => repeat xee 28) Blockfrost "addr_test1xyz" (render Blockfrost "addr_test1xyz" [u_example])
+  = Ok [mkA (repeat xab 32) 1 "addr_test1xyz" 42000000
+            [(p2, [([], 5%Z)]); (p1, [([x6e], 12%Z); ([], 18446744073709551617%Z)])]
+            None (Some (ARaw [xd8; x79; x80])) (Some (SPlutus 2 [x4d; x01; x00]))].
+Proof. vm_compute. reflexivity. Qed.
